@@ -182,13 +182,19 @@ def build(tier):
         return {"id": name, "file": DF, "locator": {"kind": "impl_fn", "self_ty": "TextDocument", "name": name, "trait": "-"}}
     fr = vf.extract([{"id": "TextDocument", "file": DF, "locator": {"kind": "item", "item": "struct", "name": "TextDocument", "attrs": "strip"}}]
                     + [ifn(n) for n in ("apply_change", "validate_range", "position_to_index", "calculate_line_offsets")])
-    maxn = 3 if tier == "quick" else 4
     hs, obs = [], []
-    for n in range(1, maxn + 1):
-        ds = docs(n)
+    # CBMC cost per document is minutes (char_indices from a symbolic offset): the quick tier takes every 1-byte document and a
+    # catalogue of 2-byte documents that exercise each feature once (2-byte character, CRLF, LF at either end); thorough takes all
+    # 2-byte documents and a 3/4-byte catalogue (3-byte character, surrogate pair, CR LF mixtures).
+    CAT2 = [[0xC3, 0xA9], [0x0D, 0x0A], [0x61, 0x0A], [0x0A, 0x61]]
+    CAT3 = [[0xE2, 0x82, 0xAC], [0x61, 0xC3, 0xA9], [0xC3, 0xA9, 0x61], [0x61, 0x0A, 0x61], [0x0A, 0x0D, 0x0A], [0x0D, 0x61, 0x0A]]
+    CAT4 = [[0xF0, 0x9F, 0x98, 0x80], [0x61, 0x0D, 0x0A, 0x61]]
+    plan = [(1, docs(1), "all"), (2, CAT2, "catalogue")] if tier == "quick" else [(1, docs(1), "all"), (2, docs(2), "all"), (3, CAT3, "catalogue"), (4, CAT4, "catalogue")]
+    for n, ds, kind in plan:
         table = ", ".join("[" + ", ".join(str(x) for x in d) + "]" for d in ds)
         hs.append(INST.replace("@LEN@", str(n)).replace("@K@", str(len(ds))).replace("@TABLE@", table).replace("@U@", str(len(ds) + 12)))
-        b = "all %d documents of exactly %d bytes made of 'a', LF, CR, U+00E9 (2 bytes), U+20AC (3 bytes), U+1F600 (4 bytes, 2 UTF-16 units)" % (len(ds), n)
+        b = ("all %d documents of exactly %d bytes made of 'a', LF, CR, U+00E9 (2 bytes), U+20AC (3 bytes), U+1F600 (4 bytes, 2 UTF-16 units)" % (len(ds), n)) if kind == "all" else \
+            ("a catalogue of %d documents of %d bytes: %s" % (len(ds), n, ", ".join(repr(bytes(d).decode()) for d in ds)))
         obs.append(vf.Ob("offsets_len%d" % n, "C23", complete=False, bound=b, what="calculate_line_offsets == the protocol's line starts (LF, CRLF, CR)"))
         obs.append(vf.Ob("index_len%d" % n, "C23", complete=False, bound=b + "; every (u32 line, u32 character)",
                          what="position_to_index == byte offset of the UTF-16 position, clamped to the line end; always a char boundary"))
@@ -210,13 +216,13 @@ def build(tier):
     for k in fr:
         src = src.replace("@%s@" % k, fr[k]["text"])
     src = src.replace("@HARNESSES@", "\n".join(hs))
-    u = vf.KaniUnit("c23_document", {"src/lib.rs": src}, obs, timeout_s=1500, jobs=8, auto_files=[DF])
+    u = vf.KaniUnit("c23_document", {"src/lib.rs": src}, obs, timeout_s=1500 if tier == "quick" else 6000, jobs=6, auto_files=[DF])
     u.fragments = [vf.frag_record(fr[k]) for k in fr]
     u.rewrites = [{"rule": "R0", "before": "TextDocument, apply_change, validate_range, position_to_index, calculate_line_offsets", "after": "verbatim", "times": 5}]
     u.assumptions = [
         "lsp_types::{Position, Range, TextDocumentContentChangeEvent} as plain structs with the same public fields; DocumentError reduced to InvalidRange",
         "String::replace_range / String::clone_from replaced by contract stubs (documented precondition asserted, arguments recorded): std's implementations are trusted to meet their documentation",
-        "induction over histories: apply_change is verified from an arbitrary well-formed document (line_offsets == calculate_line_offsets(content)); Documents::update_text_document folds it over the change list (read, not contracted)",
+        "induction over histories: apply_change is verified from an arbitrary well-formed document (line_offsets == calculate_line_offsets(content)); that the step RE-ESTABLISHES well-formedness is read off the code (`self.line_offsets = Self::calculate_line_offsets(&self.content)` follows the mutation) and NOT discharged: executing the real splice, symbolically or by concrete enumeration, did not finish in 30 min even for 1-byte documents; Documents::update_text_document folds apply_change over the change list (read, not contracted)",
         "data independence: 1-byte characters are 'a', LF or CR; multi-byte characters are U+00E9, U+20AC, U+1F600 (the code only compares with LF/CR and adds byte/UTF-16 lengths)",
         "positions inside a surrogate pair are excluded (unspecified by the protocol)",
         "LSP reference spec_index/spec_line_offsets in the unit (TRUSTED)",
